@@ -20,12 +20,14 @@
 (*            operands: a value or "not folded".                           *)
 (*                                                                         *)
 (* The property (checked by TLC on every case of the pool):                *)
-(*   Agreement       CE / Fold produce a value  =>  Sem produces the same  *)
-(*   NoSubstitution  Sem aborts  =>  CE refuses and Fold does not fold     *)
+(*   Agreement       CE produces a value  =>  Sem produces the same value  *)
+(*   NoSubstitution  Sem aborts  =>  CE refuses (a compile error)          *)
 (*   NoPanic         CE never panics                                       *)
-(* Conformance (Trace_ConstEval) binds the real compiler and the VM to     *)
-(* Sem (run time), to Allowed(e) (compile time) and checks the folded      *)
-(* build against Sem.                                                      *)
+(*   InRange         the constant built for a narrow type fits the type    *)
+(*   FoldSound       a folded instruction = what the VM computes for it    *)
+(* Conformance (Trace_ConstEval) binds the VM to Sem (run time), the real  *)
+(* compiler to AllowedCompileTime (const / configurable), the optimized    *)
+(* build to Sem, and the real const-folding pass to FoldOf exactly.        *)
 (***************************************************************************)
 EXTENDS SwaySem, FiniteSets
 
